@@ -62,7 +62,7 @@ Qed.
 Print Assumptions C13_stray.
 
 (* ---- the oracle evaluated on the implementation holds of the model, for every input ---- *)
-Require Import Wire.Case Spec.Oracles Spec.OracleFactsCopy Spec.OracleFactsCopy2 Spec.OracleFactsEnd.
+Require Import Wire.Case Spec.Oracles Spec.OracleFactsCopy Spec.OracleFactsCopy2 Spec.OracleFactsEnd Spec.OracleFactsData.
 From Coq Require Import String.
 Local Open Scope string_scope.
 Local Open Scope list_scope.
@@ -102,6 +102,15 @@ Theorem C13_model_never_drops_the_connection : forall sc,
   oracle_early_scan sc (run_case sc) = true.
 Proof. exact oracle_early_scan_model. Qed.
 Print Assumptions C13_model_never_drops_the_connection.
+
+(* ... and without reference to turn markers (so also for logs of pipelined delivery): the payloads handed to COPY
+   handlers over the whole connection are, in order and each at most once, bodies of CopyData messages within the
+   limit that the client sent — nothing out of a Sync/Flush body, a skipped message, a Query *)
+Theorem C13_payloads_are_sent_payloads : forall sc,
+  (forall v after rest, start (cfg_of_case sc) (sc_raw sc) = Some (v, after, rest) -> v <> version_ssl) ->
+  oracle_data_budget sc (run_case sc) = true.
+Proof. exact oracle_data_budget_model. Qed.
+Print Assumptions C13_payloads_are_sent_payloads.
 
 Definition ex_copy_stmt : stmt :=
   {| s_id := 7; s_cols := [ {| c_name := bs "a"; c_table := 0; c_attrno := 0; c_oid := 25; c_width := -1 |} ];
